@@ -476,6 +476,6 @@ def VariableCompression(F, B, function):
     elif function == 'maj':
         newF.add_clauses_from(apply_substitution(F, applymaj))
     else:
-        raise RuntimeError("Function {} not supported for compression".format(func))
+        raise RuntimeError("Function {} not supported for compression".format(function))
 
     return newF
